@@ -94,7 +94,10 @@ def builtin(it, name):
             return int(x)
         if isinstance(x, Opaque):
             return x
-        return f_trunc(x)
+        r = f_trunc(x)
+        if isinstance(r, Term) and r.is_const() and r.cval().denominator == 1:
+            return int(r.cval())
+        return r
 
     def b_float(x=0.0):
         if isinstance(x, str):
@@ -332,6 +335,8 @@ def _maskload(vec, mask):
 
 
 def load_subscript(it, obj, k):
+    if hasattr(obj, "abs_getitem"):
+        return obj.abs_getitem(it, k)
     if isinstance(obj, GA):
         if isinstance(k, str):
             if k not in obj.data.cols:
@@ -434,6 +439,8 @@ def df_select(d, mask):
 
 
 def store_subscript(it, obj, k, v, aug=False):
+    if hasattr(obj, "abs_setitem"):
+        return obj.abs_setitem(it, k, v, aug)
     if isinstance(obj, BoundMethod) and obj.name in ("loc", "iloc", "at", "iat"):
         obj = obj.obj
     if isinstance(obj, GA):
